@@ -12,6 +12,7 @@ package c03
 
 import (
 	"fmt"
+	"regexp"
 	"strings"
 	"testing"
 
@@ -178,6 +179,8 @@ func runCase(c Case) *hx.Failure {
 	return nil
 }
 
+var errTextTail = regexp.MustCompile(`\(Line:\d+ Pos:\d+\)$`)
+
 // judge compares one evaluation result with the reference's.
 func judge(c Case, src, note string, want lang.Value, werr *lang.ErrV, val interface{}, err error) *hx.Failure {
 	if werr != nil {
@@ -196,6 +199,12 @@ func judge(c Case, src, note string, want lang.Value, werr *lang.ErrV, val inter
 		}
 		if !named {
 			return hx.Failf("error-operand:"+rootOp(c.Expr), "%q%s failed with detail %q which names none of the offending operands %q", src, note, detail, werr.Operand)
+		}
+		// what a user gets to see is the text of the error: it must name the operand as well
+		// (the detail in brackets, followed by the position, as ecal.md shows it)
+		named = strings.Contains(err.Error(), "("+detail+")") && errTextTail.MatchString(err.Error())
+		if !named {
+			return hx.Failf("error-text:"+rootOp(c.Expr), "%q%s: the error's fields name the operand (detail %q) but its text does not: %q", src, note, detail, err.Error())
 		}
 		return nil
 	}
